@@ -44,7 +44,8 @@ class Judge:
         hist = ops_so_far + [op]
         self.kinds[(op[0] if op[0] != 'trial' else op[2], out)] += 1
         def fail(expected, got, note):
-            self.ctx.fail('HighJumpCompetition', H.fmt_ops(hist), expected, got, note=note, replay_py=H.replay_py(hist))
+            fl = getattr(c, '_verif_float', False)
+            self.ctx.fail('HighJumpCompetition', H.fmt_ops(hist) + (['(bar heights passed as float)'] if fl else []), expected, got, note=note + (' [float heights]' if fl else ''), replay_py=H.replay_py(hist, fl))
         if out != 'ok' and after != before:
             fail('a refused call leaves every observable unchanged', 'before: %s / after: %s' % (before, after), 'refusal not atomic')
         if out not in ('ok', 'rule') and not (out == 'key' and want is None):
@@ -112,15 +113,15 @@ def run(ctx):
     rng = ctx.rng
     nwalks = 1500 if ctx.quick() else 40000
     for w in range(nwalks):
-        c = H.new_comp(athlib); ref = H.Ref(); ops = []
+        c = H.new_comp(athlib, float_heights=(w % 3 == 1)); ref = H.Ref(); ops = []
         lines.append('hj\tnew'); expect.append('new'); meta.append(None)
-        nb = rng.randint(1, 4); h = 100
+        nb = rng.randint(1, 4); h = rng.choice([100, 100, 180, 200, 229, 50])
         for i in range(rng.randint(5, 60)):
             x = rng.random()
             if not c.heights and x < 0.5 and len(c.jumpers) < nb: op = ('add', len(c.jumpers) + 1)
             elif x < 0.06: op = ('add', rng.randint(1, nb + 1))
             elif x < 0.22:
-                dlt = rng.choice([3, 2, 5, 0, -2, -3]) if rng.random() < 0.9 else -h
+                dlt = rng.choice([3, 2, 5, 1, 1, 0, -2, -3]) if rng.random() < 0.9 else -h
                 op = ('bar', h + dlt)
             else:
                 op = ('trial', rng.randint(1, nb + (1 if rng.random() < 0.03 else 0)), rng.choice('oxxxxpr' if rng.random() < 0.75 else 'ooxpr'))
@@ -195,4 +196,4 @@ THEOREMS = ['C02_atomic', 'C02_log_only_accepted', 'C02_add_only_scheduled', 'C0
             'C02_terminal_absorbing', 'inv_reachable', 'C02_terminal_absorbing_reachable', 'C02_phase_forward_reachable',
             'C02_refused_means_rule_violation', 'C02_add_before_first_height', 'wf_reachable', 'allFlags_reachable',
             'C02_card_shape', 'C02_flags_follow_card', 'C02_accepted_trial_open_cell', 'allConsec_reachable',
-            'C02_three_consecutive_failures']
+            'C02_three_consecutive_failures', 'C02_trial_accepted_iff']
